@@ -144,6 +144,21 @@ def tlc(module, cfg, *, workdir, workers=1, env=None, timeout=600, xmx="3g", xss
     return r
 
 
+def apalache(module, args, *, workdir, timeout=900):
+    """Run apalache-mc check on spec/<module>.tla; returns (ok, tail of output).  A timeout or crash is a tool error."""
+    os.makedirs(workdir, exist_ok=True)
+    cmd = ["timeout", str(timeout), "apalache-mc", "check", "--out-dir=" + os.path.join(workdir, "apalache-out")] + args + [module + ".tla"]
+    p = subprocess.run(cmd, cwd=SPEC, stdout=subprocess.PIPE, stderr=subprocess.STDOUT, text=True)
+    shutil.rmtree(os.path.join(workdir, "apalache-out"), ignore_errors=True)
+    if p.returncode == 124:
+        raise ToolError("apalache timed out on %s %s" % (module, " ".join(args)))
+    if "The outcome is: NoError" in p.stdout:
+        return True, p.stdout[-600:]
+    if "The outcome is: Error" in p.stdout:
+        return False, p.stdout[-1500:]
+    raise ToolError("apalache failed on %s %s\n%s" % (module, " ".join(args), p.stdout[-1500:]))
+
+
 def sany(module):
     p = subprocess.run(["java", "-cp", TLAJAR, "tla2sany.SANY", module + ".tla"], cwd=SPEC,
                        stdout=subprocess.PIPE, stderr=subprocess.STDOUT, text=True)
